@@ -37,7 +37,7 @@ COMPONENTS = {'real': B.COMPONENTS['real'] + ['InMemoryScreen', 'PcIO', 'Keyboar
 
 def plan(tier):
     if tier == 'thorough':
-        return {'cases': 200000, 'chunk': 200, 'budget_s': 1200, 'case_timeout_s': 60, 'minimise_budget_s': 240}
+        return {'cases': 700000, 'chunk': 400, 'budget_s': 1200, 'case_timeout_s': 60, 'minimise_budget_s': 240}
     return {'cases': 40000, 'chunk': 200, 'budget_s': 70, 'case_timeout_s': 60, 'minimise_budget_s': 90}
 
 
